@@ -160,6 +160,21 @@ def execute(case, hook=None):
             l.tell(x, y)
             emit(f"l1 tell {fb(x)} {fval(y)}", "ok " + obs(l))
             info = {"op": "retell", "x": x}
+        elif r < 0.70 and outstanding:
+            # a result the learner refuses (None / not a number): tell raises, the caller goes on - nothing may have changed
+            x = outstanding[rng.randrange(len(outstanding))]
+            try:
+                l.tell(x, None if rng.random() < 0.5 else "failed")
+                refused = False
+            except (TypeError, ValueError):
+                refused = True
+            stats["refused_tell"] = stats.get("refused_tell", 0) + int(refused)
+            if not refused:   # accepted: the model cannot follow, end the history here
+                break
+            info = {"op": "refused_tell", "x": x}
+            if hook:
+                hook(l, info)
+            continue
         elif r < 0.78:
             x = rand_x(rng, lo, hi, known)
             l.tell_pending(x)
